@@ -299,4 +299,153 @@ Section Proofs.
       + rewrite <- updn_upd. apply allT_updn; auto; try solve [ intros _; apply k6t; right; left; reflexivity ].
       + rewrite <- updn_upd. apply allT_updn; auto; try solve [ intros H; contradiction ].
   Qed.
+
+  Lemma clean_exec_mono : forall sched s, clean (exec V vop s sched) -> clean s.
+  Proof.
+    induction sched as [|i r IH]; simpl; intros s H; auto.
+    apply IH in H. unfold step_or_stay in H. destruct (step V vop s i) eqn:Hs; auto. eapply clean_mono; eauto.
+  Qed.
+
+  Lemma K_exec : forall sched s, K s -> clean (exec V vop s sched) -> K (exec V vop s sched).
+  Proof.
+    induction sched as [|i r IH]; simpl; intros s HK Hc; auto.
+    apply IH; auto. pose proof (clean_exec_mono _ _ Hc) as Hc1.
+    unfold step_or_stay in *. destruct (step V vop s i) eqn:Hs; auto. eapply K_step; eauto.
+  Qed.
+
+  Lemma fresh_threads : forall hd (progs : list (list (op V))) j t,
+      nth_error (map (fun p => next V hd (mkthr V PIdle p [])) progs) j = Some t ->
+      isMid t = false /\ ~ special t /\ t_pc t <> PEmpty.
+  Proof.
+    intros hd progs j t H. rewrite nth_error_map in H. destruct (nth_error progs j) as [p|]; simpl in H; [|discriminate].
+    inversion H; subst t. destruct (next_facts hd (mkthr V PIdle p [])) as (H1 & H2 & H3 & H4 & H5).
+    repeat split; auto. unfold special. rewrite H2, H5. simpl. intros [X|[X|X]]; try discriminate; contradiction.
+  Qed.
+
+  Lemma K_start : forall hd iv junk ns c progs, 0 <= c -> K (start V hd iv junk ns c progs).
+  Proof.
+    intros. unfold start. constructor; simpl; try lia.
+    - rewrite L.cnt_none; auto. intros j t Hj. apply (fresh_threads _ _ _ _ Hj).
+    - intros j t Hj Hs. exfalso. apply (fresh_threads _ _ _ _ Hj). auto.
+    - intros Hr. apply Z.eqb_eq in Hr. auto.
+    - intros j t Hj Hp. exfalso. apply (fresh_threads _ _ _ _ Hj). auto.
+  Qed.
+
+  Lemma K_reset : forall s n progs, 0 <= n -> K (reset V s n progs).
+  Proof.
+    intros. unfold reset. constructor; simpl; try lia.
+    - rewrite L.cnt_none; auto. intros j t Hj. apply (fresh_threads _ _ _ _ Hj).
+    - intros j t Hj Hs. exfalso. apply (fresh_threads _ _ _ _ Hj). auto.
+    - destruct (n =? 0) eqn:Hn; [apply Z.eqb_eq in Hn; auto|discriminate].
+    - intros j t Hj Hp. exfalso. apply (fresh_threads _ _ _ _ Hj). auto.
+  Qed.
+
+  (* the conclusion of the counting theorems: every expected submission has been made and has decremented *)
+  Definition all_arrived (s : state) : Prop :=
+    counter s = 0 /\ Z.of_nat (decs s) = c0 s + exps s /\ started s = decs s /\ L.cnt isMid (thrs s) = 0%nat.
+
+  Lemma K_special : forall s i t, K s -> nth_error (thrs s) i = Some t -> special t -> all_arrived s.
+  Proof.
+    intros s i t HK Hi Hs. pose proof (K6 _ HK _ _ Hi Hs) as H0. destruct (zero_facts _ HK H0) as (A & B & C).
+    destruct HK as [k1 k2 k3 _ _ _]. unfold all_arrived. repeat split; auto; lia.
+  Qed.
+
+  (* generation = the run that follows qt_sinc_init (start) or qt_sinc_reset (reset) *)
+  Lemma wait_after_all_submits_start : forall hd iv junk ns c progs sched i t,
+      let s := exec V vop (start V hd iv junk ns c progs) sched in
+      clean s -> nth_error (thrs s) i = Some t -> (t_got t <> [] \/ t_pc t = PCopy) -> all_arrived s.
+  Proof.
+    intros hd iv junk ns c progs sched i t s Hc Hi Hp.
+    assert (HK : K s).
+    { apply K_exec; auto. apply K_start. apply clean_exec_mono in Hc. destruct Hc as (_ & _ & H & _). exact H. }
+    apply (K_special s i t HK Hi). unfold special. destruct Hp; auto.
+  Qed.
+
+  Lemma wait_after_all_submits_reset : forall s0 n progs sched i t,
+      let s := exec V vop (reset V s0 n progs) sched in
+      clean s -> nth_error (thrs s) i = Some t -> (t_got t <> [] \/ t_pc t = PCopy) -> all_arrived s.
+  Proof.
+    intros s0 n progs sched i t s Hc Hi Hp.
+    assert (HK : K s).
+    { apply K_exec; auto. apply K_reset. apply clean_exec_mono in Hc. destruct Hc as (_ & _ & H & _). exact H. }
+    apply (K_special s i t HK Hi). unfold special. destruct Hp; auto.
+  Qed.
+
+  (* at every step of the collation (and when ready is full) no submission is outstanding or half-done *)
+  Lemma collate_sees_all_start : forall hd iv junk ns c progs sched,
+      let s := exec V vop (start V hd iv junk ns c progs) sched in
+      clean s ->
+      (forall i t, nth_error (thrs s) i = Some t -> isCol t = true -> all_arrived s) /\
+      (ready s = true -> all_arrived s).
+  Proof.
+    intros hd iv junk ns c progs sched s Hc.
+    assert (HK : K s).
+    { apply K_exec; auto. apply K_start. apply clean_exec_mono in Hc. destruct Hc as (_ & _ & H & _). exact H. }
+    split.
+    - intros i t Hi Hcol. apply (K_special s i t HK Hi). left. auto.
+    - intros Hr. pose proof (K7 _ HK Hr) as H0. destruct (zero_facts _ HK H0) as (A & B & C).
+      destruct HK as [k1 k2 k3 _ _ _]. unfold all_arrived. repeat split; auto; lia.
+  Qed.
+
+  (* once everything has arrived, any further submit / expect breaks the proviso: the state is frozen for them *)
+  Lemma frozen_after_arrival : forall s i s' t,
+      K s -> counter s = 0 -> nth_error (thrs s) i = Some t -> step V vop s i = Some s' -> clean s' ->
+      match t_pc t with PSlot _ _ | PDec _ | PAdd _ | PEmpty => False | _ => True end.
+  Proof.
+    intros s i s' t HK H0 Hi Hstep Hc.
+    pose proof (clean_mono _ _ _ Hstep Hc) as (He0 & Ho0 & _ & _).
+    destruct (zero_facts _ HK H0) as (A & B & C).
+    pose proof (K9 _ HK _ _ Hi) as k9t. cbv beta in k9t.
+    destruct Hc as (He & Ho & _ & _). unfold step in Hstep. rewrite Hi in Hstep.
+    destruct s as [hd iv ns cnt rdy sl res l c dcs eps stt sub e0 ov]; simpl in *. subst cnt.
+    destruct t as [p pr g]; simpl in *.
+    destruct p as [|v k|fresh| |k| |n| |tgt|tgt|]; auto; inversion Hstep; subst s'; simpl in *.
+    - apply orb_false_elim in Ho. destruct Ho as (_ & Hlt). apply Z.leb_gt in Hlt. lia.
+    - destruct fresh; simpl in *.
+      + apply orb_false_elim in Ho. destruct Ho as (_ & Hlt). apply Z.leb_gt in Hlt. lia.
+      + pose proof (mid_pos l i _ Hi eq_refl). lia.
+    - apply orb_false_elim in He. destruct He as (_ & Hnz). discriminate.
+    - rewrite k9t in He0 by reflexivity. discriminate.
+  Qed.
+
+  (* ---------------------------------------------------------------- reset *)
+  Lemma reset_fresh_pos : forall s n progs, n <> 0 ->
+      reset V s n progs = start V (hasdata s) (initv s) (result s) (nslots s) n progs.
+  Proof. intros s n progs Hn. unfold reset, start. apply Z.eqb_neq in Hn. rewrite Hn. reflexivity. Qed.
+
+  Lemma reset_fresh_zero_complete : forall s progs, ready s = true ->
+      reset V s 0 progs = start V (hasdata s) (initv s) (result s) (nslots s) 0 progs.
+  Proof. intros s progs Hr. unfold reset, start. simpl. rewrite Hr. reflexivity. Qed.
+
+  Lemma reset_zero_incomplete_differs_lemma : forall s progs, ready s = false ->
+      ready (reset V s 0 progs) = false /\ ready (start V (hasdata s) (initv s) (result s) (nslots s) 0 progs) = true.
+  Proof. intros s progs Hr. unfold reset, start. simpl. auto. Qed.
 End Proofs.
+
+(* ------------------------------------------------------------------ refuted variants (witnesses) *)
+Definition w_progs : list (list (op nat)) :=
+  [[Submit (Some 1%nat) 0]; [Expect 1; Submit (Some 2%nat) 0]; [Wait true]].
+Definition w_sched : list nat := [0;0;1;1;0;0;0;2;2]%nat.
+
+(* without the proviso (an expect finds the count at zero while the collator is on its way to fill ready):
+   a wait completes although one expected submission is still outstanding *)
+Lemma wait_without_proviso_refuted_lemma :
+  let s := exec nat Nat.add (start nat true 0%nat 0%nat 1 1 w_progs) w_sched in
+  exp0 s = true /\ over s = false /\
+  (exists t, nth_error (thrs s) 2 = Some t /\ t_got t <> []) /\ Z.of_nat (decs s) < c0 s + exps s /\ counter s = 1.
+Proof. vm_compute. repeat split; try reflexivity. eexists. split; [reflexivity|discriminate]. Qed.
+
+(* a sinc created for zero submissions: wait delivers the never-written result buffer, not the initial value *)
+Lemma sinc_value_zero_count_refuted_lemma :
+  let s := exec nat Nat.add (start nat true 0%nat 77%nat 1 0 [[Wait true]]) [0;0]%nat in
+  exp0 s = false /\ over s = false /\
+  (exists t, nth_error (thrs s) 0 = Some t /\ t_got t = [Some 77%nat]) /\ reduce nat Nat.add (submitted s) 0%nat = 0%nat.
+Proof. vm_compute. repeat split; try reflexivity. eexists. split; reflexivity. Qed.
+
+(* non-vacuity: a clean run in which a wait completes *)
+Example clean_run_completes :
+  let s := exec nat Nat.add (start nat true 0%nat 9%nat 2 2
+             [[Expect 1; Submit (Some 5%nat) 0; Submit (Some 6%nat) 1]; [Submit (Some 7%nat) 1]; [Wait true]])
+             [2;0;0;0;1;1;0;0;0;0;0;0;2]%nat in
+  exp0 s = false /\ over s = false /\ (exists t, nth_error (thrs s) 2 = Some t /\ t_got t = [Some 18%nat]) /\ decs s = 3%nat.
+Proof. vm_compute. repeat split; try reflexivity. eexists. split; reflexivity. Qed.
